@@ -548,6 +548,47 @@ class PathCtx:
         self.rep.undecide(oname, kind, "z3", "feasibility of throwing path unknown")
         return False
 
+    def check_safe(self, name="safe", timeout_ms=8000):
+        """SAFE: under the precondition and this path's condition every denominator is non-zero, every
+        sqrt argument non-negative, no atan2 at the origin (so every value computed is a finite real)"""
+        import z3
+        alg = self.alg
+        seen = set()
+        ok = True
+        for (what, p) in list(alg.safe_obligations):
+            key = (what, str(p))
+            if key in seen:
+                continue
+            seen.add(key)
+            oname = "%s/%s/%s" % (self.label, name, what + "_" + str(len(seen)))
+            q = alg.nf(p)
+            if q.is_ground:
+                cv = alg.const_value(q)
+                good = (cv != 0) if what != "sqrt_arg_nonneg" else (cv >= 0)
+                if good:
+                    self.rep.ok(oname, "SAFE", "nf")
+                    continue
+            sg = alg.sign_of(q)
+            if what == "sqrt_arg_nonneg" and sg == 1:
+                self.rep.ok(oname, "SAFE", "sign")
+                continue
+            z = smt.Z3Ctx(alg, timeout_ms)
+            cs = z.base_constraints(self.extra_facts_z3(z)) + z.decisions(self.path)
+            e = z.expr(q)
+            cs.append(e < 0 if what == "sqrt_arg_nonneg" else e == 0)
+            r, model, dt = z.check(cs)
+            if r == "unsat":
+                self.rep.ok(oname, "SAFE", "z3", dt, detail={"path": self.path.key, "cannot_vanish": str(q)[:200]})
+            elif r == "sat":
+                vals = self.project_model(model) if model else None
+                replay = self.make_replay(vals) if vals else {}
+                replay["failing_input_reproduced"] = bool(vals) and numeval.DagEval(self.path, vals).follows_path()
+                self.rep.fail(oname, "SAFE", "z3", {"path": self.path.key, "what": what, "expression": str(q)[:300]}, replay, dt)
+                ok = False
+            else:
+                self.rep.standin(oname, "SAFE", "z3-unknown", {"path": self.path.key, "what": what, "expression": str(q)[:200]})
+        return ok
+
     def no_poison(self, name, arr, kind="FRAME"):
         """every cell of arr was written (no poison / undefined cell reaches the output)"""
         alg = self.alg
